@@ -139,7 +139,7 @@ class Sd:
         if k == "union":
             return "%sSchema{Type: \"union\", Union: []%sSchema{%s}}" % (av, av, ", ".join(b.lit(av) for b in self.branches))
         if k in ("null", "boolean", "int", "long", "float", "double", "bytes", "string") and not self.logical:
-            return "%sSchema{Type: %r}" % (av, k).replace("'", '"')
+            return "%sSchema{Type: \"%s\"}" % (av, k)
         parts = []
         if self.logical:
             parts.append("LogicalType: \"%s\"" % self.logical)
@@ -686,6 +686,13 @@ func verifMaxLenInner() int {
 
 func verifMaxStr() int { return 2 }
 
+func verifC06MaxLen() int {
+	if verifThorough() {
+		return 8
+	}
+	return 5
+}
+
 func verifStrEq(a, b string) bool {
 	if len(a) != len(b) {
 		return false
@@ -839,6 +846,189 @@ def reader_pairs_null(g, cat):
     return pairs
 
 
+
+# ------------------------------------------------------------------ C05 matrix
+C05_SCHEMAS = [
+    Sd("null"), Sd("boolean"), Sd("int"), Sd("long"), Sd("float"), Sd("double"), Sd("bytes"), Sd("string"),
+    Sd("fixed", size=0, name="f0"), Sd("fixed", size=1, name="f1"), Sd("fixed", size=4, name="f4"), Sd("fixed", size=16, name="f16"),
+    Sd("record", name="inner", fields=[("X", Sd("long"))]), Sd("enum", name="e"),
+    Sd("array", items=Sd("long")), Sd("map", items=Sd("long")), U(Sd("long")), Sd("union", branches=[Sd("string"), Sd("null")]),
+]
+
+C05_KINDS = [
+    ("bool", "bool"), ("int", "int"), ("int8", "int8"), ("int16", "int16"), ("int32", "int32"), ("int64", "int64"),
+    ("uint", "uint"), ("uint8", "uint8"), ("uint16", "uint16"), ("uint32", "uint32"), ("uint64", "uint64"), ("uintptr", "uintptr"),
+    ("float32", "float32"), ("float64", "float64"), ("complex64", "complex64"), ("complex128", "complex128"),
+    ("string", "string"), ("bytes", "[]byte"), ("arr0", "[0]byte"), ("arr1", "[1]byte"), ("arr3", "[3]byte"), ("arr4", "[4]byte"),
+    ("arr5", "[5]byte"), ("arr15", "[15]byte"), ("arr16", "[16]byte"), ("arr17", "[17]byte"), ("arr4i8", "[4]int8"),
+    ("sliceI64", "[]int64"), ("sliceI16", "[]int16"), ("sliceI8", "[]int8"), ("arrI64", "[2]int64"),
+    ("mapI64", "map[string]int64"), ("mapI16", "map[string]int16"), ("mapIntKey", "map[int]int64"),
+    ("structX", "verifC05Inner"), ("structX16", "verifC05Inner16"), ("ptrI64", "*int64"), ("ptrI16", "*int16"), ("any", "any"), ("chan", "chan int"), ("func", "func()"),
+    ("unsafeptr", "unsafe.Pointer"),
+]
+
+C05_POS = [("field", "%s", None), ("ptr", "*%s", None), ("slice", "[]%s", "array"), ("map", "map[string]%s", "map")]
+
+
+def emit_c05(g):
+    av = g.av
+    g.w("type verifC05Inner struct {\n\tX int64\n}\n\ntype verifC05Inner16 struct {\n\tG0 [2]byte `json:\"-\"`\n\tX  int16\n\tG1 [2]byte `json:\"-\"`\n}\n")
+    lits = ",\n\t\t".join(sd.lit(av) for sd in C05_SCHEMAS)
+    g.w("func verifC05Schemas() []%sSchema {\n\treturn []%sSchema{\n\t\t%s,\n\t}\n}\n" % (av, av, lits))
+    for kid, gotxt in C05_KINDS:
+        for pid, pfmt, wrap in C05_POS:
+            tname = "verifC05_%s_%s" % (pid, kid)
+            ftype = pfmt % gotxt
+            g.w("type %s struct {\n\tG0 [2]byte `json:\"-\"`\n\tF  %s\n\tG1 [2]byte `json:\"-\"`\n\tX  int64\n\tGz [2]byte `json:\"-\"`\n}\n" % (tname, ftype))
+            if wrap == "array":
+                wrapped = "%sSchema{Type: \"array\", Object: &%sSchemaObject{Items: fs}}" % (av, av)
+            elif wrap == "map":
+                wrapped = "%sSchema{Type: \"map\", Object: &%sSchemaObject{Values: fs}}" % (av, av)
+            else:
+                wrapped = "fs"
+            g.w("""func verifHarness_C05_%(pid)s_%(kid)s() {
+	verifStrictHeap(true)
+	all := verifC05Schemas()
+	fs := all[verifChoice("schema", len(all))]
+	s := %(av)sSchema{Type: "record", Object: &%(av)sSchemaObject{Name: "r", Fields: []%(av)sSchemaRecordField{{Name: "F", Type: %(wrapped)s}}}}
+	var out %(t)s
+	out.G0, out.G1, out.Gz = [2]byte{0xA5, 0x5A}, [2]byte{0xA5, 0x5A}, [2]byte{0xA5, 0x5A}
+	out.X = 0x1122334455667788
+	c, err := s.Codec(&out)
+	if err != nil {
+		verifReach("end")
+		return
+	}
+	d := refGen(&s, "d", 0)
+	enc := refEncode(&s, &d, nil)
+	r := %(av)sNewReadBuf(enc)
+	_ = c.Read(r, unsafe.Pointer(&out))
+	ok := verifAnd(out.G0 == [2]byte{0xA5, 0x5A}, verifAnd(out.G1 == [2]byte{0xA5, 0x5A}, out.Gz == [2]byte{0xA5, 0x5A}))
+	verifAssert(ok, "C05:guards-intact")
+	verifAssert(out.X == 0x1122334455667788, "C05:sibling-field-untouched")
+	verifReach("end")
+}
+""" % dict(pid=pid, kid=kid, av=av, t=tname, wrapped=wrapped))
+
+
+# ------------------------------------------------------------------ C06 arbitrary bytes
+def emit_c06(g, types):
+    av = g.av
+    for t in types:
+        g.w("""func verifHarness_C06_bytes_%(n)s() {
+	s, err := %(av)sSchemaForType(%(n)s{})
+	verifAssume(err == nil)
+	c, err := s.Codec(%(n)s{})
+	verifAssume(err == nil)
+	var empty struct{}
+	ce, err := s.Codec(empty)
+	verifAssume(err == nil)
+	n := verifChoice("len", verifC06MaxLen()+1)
+	buf := verifBytes("buf", n)
+	// termination and work proportional to the input, allocation proportional to the input
+	verifUnwind(2*n + 8)
+	verifAllocMax(2*n + 16)
+	var out %(n)s
+	r := %(av)sNewReadBuf(buf)
+	err = c.Read(r, unsafe.Pointer(&out))
+	verifObserveBool("read-err", err != nil)
+	r2 := %(av)sNewReadBuf(buf)
+	err2 := ce.Read(r2, unsafe.Pointer(&empty))
+	verifObserveBool("skip-err", err2 != nil)
+	verifReach("end")
+}
+""" % dict(n=t.name, av=av))
+
+
+# ------------------------------------------------------------------ C13 caller schemas
+def emit_c13(g, cases):
+    """cases: (id, field schema Sd, Go field type Ty, tag, wide)"""
+    av = g.av
+    for cid, fsd, fty, tag, wide in cases:
+        t = g.struct("verifC13_%s" % cid, [Field("F", fty, tag), Field("Z", B("int64"))])
+        sd = Sd("record", name="r", fields=[("F", fsd), ("Z", Sd("long"))])
+        fill = g.fill(t, False, False, wide)
+        datum = g.datum_under(sd, t)
+        rt = g.rt(t, t)
+        g.guards(t)
+        assume = ""
+        if fsd.kind == "int" or (fsd.kind == "union" and any(b.kind == "int" for b in fsd.branches)):
+            if fty.kind in ("int", "int64"):
+                assume = "verifAssume(in.F >= -2147483648 && in.F <= 2147483647)"
+        g.w("""func verifHarness_C13_%(cid)s() {
+	s := %(lit)s
+	c, err := s.Codec(%(n)s{})
+	if err != nil {
+		verifReach("rejected")
+		return
+	}
+	var in %(n)s
+	%(fill)s(&in, "v")
+	%(assume)s
+	verifSetGuards_%(n)s(&in)
+	w := %(av)sNewWriteBuf(nil)
+	c.Write(w, unsafe.Pointer(&in))
+	enc := w.Bytes()
+	d, n, ok := refDecode(&s, enc, 0)
+	verifAssert(ok, "C13:output-is-valid-under-the-caller-schema")
+	if ok {
+		verifAssert(n == len(enc), "C13:no-bytes-left-over")
+		want := %(datum)s(&in)
+		verifAssert(refEq(&d, &want), "C13:encodes-the-value-under-the-caller-schema")
+	}
+	var out %(n)s
+	verifSetGuards_%(n)s(&out)
+	r := %(av)sNewReadBuf(enc)
+	err = c.Read(r, unsafe.Pointer(&out))
+	verifAssert(err == nil, "C13:read-ok")
+	if err == nil {
+		verifAssert(r.Len() == 0, "C13:read-consumes-all")
+		verifAssert(%(rt)s(&in, &out), "C13:decoding-returns-the-original")
+		verifAssert(verifGuards_%(n)s(&out), "C05:guards-intact")
+	}
+	verifReach("built")
+}
+""" % dict(cid=cid, lit=sd.lit(av), n=t.name, fill=fill, assume=assume, av=av, datum=datum, rt=rt))
+
+
+def c13_cases_avro():
+    L, I, F, D = Sd("long"), Sd("int"), Sd("float"), Sd("double")
+    NS = lambda x: Sd("union", branches=[x, Sd("null")])
+    cases = []
+    for k in INTS:
+        cases.append(("long_%s" % k, L, B(k), "", k in ("int", "int64", "int32")))
+        cases.append(("int_%s" % k, I, B(k), "", k in ("int", "int64", "int32")))
+    cases += [
+        ("float_float32", F, B("float32"), "", False), ("double_float32", D, B("float32"), "", False), ("double_float64", D, B("float64"), "", False),
+        ("float_float64", F, B("float64"), "", False),
+        ("nullsecond_ptr_int64", NS(L), P(B("int64")), "", False), ("nullsecond_ptr_string", NS(Sd("string")), P(B("string")), "", False),
+        ("nullsecond_omit_int64", NS(L), B("int64"), 'json:"F,omitempty"', False), ("nullsecond_omit_string", NS(Sd("string")), B("string"), 'json:"F,omitempty"', False),
+        ("nullsecond_plain_int64", NS(L), B("int64"), "", False), ("nullfirst_plain_string", U(Sd("string")), B("string"), "", False),
+        ("nullfirst_ptr_int32_int", U(I), P(B("int32")), "", False), ("nullsecond_ptr_float32_float", NS(F), P(B("float32")), "", False),
+        ("nullsecond_ptr_bool", NS(Sd("boolean")), P(B("bool")), "", False), ("nullsecond_ptr_bytes", NS(Sd("bytes")), P(B("bytes")), "", False),
+        ("fixed4", Sd("fixed", size=4, name="f4"), FX(4), "", False), ("fixed0", Sd("fixed", size=0, name="f0"), FX(0), "", False),
+        ("fixed16_ptr", U(Sd("fixed", size=16, name="f16")), P(FX(16)), "", False),
+        ("array_int_int16", Sd("array", items=I), S(B("int16")), "", False), ("array_nullsecond_ptr", Sd("array", items=NS(L)), S(P(B("int64"))), "", False),
+        ("map_int_int32", Sd("map", items=I), M(B("int32")), "", False), ("map_nullsecond_ptr", Sd("map", items=NS(Sd("string"))), M(P(B("string"))), "", False),
+        ("array_float_float32", Sd("array", items=F), S(B("float32")), "", False),
+        ("bytes_bytes", Sd("bytes"), B("bytes"), "", False), ("string_string", Sd("string"), B("string"), "", False), ("boolean_bool", Sd("boolean"), B("bool"), "", False),
+    ]
+    return cases
+
+
+def c13_cases_null():
+    L, I, F, D = Sd("long"), Sd("int"), Sd("float"), Sd("double")
+    NS = lambda x: Sd("union", branches=[x, Sd("null")])
+    return [
+        ("nullint_long", U(L), B("nullint"), "", True), ("nullint_int", U(I), B("nullint"), "", False), ("nullint_nullsecond", NS(L), B("nullint"), "", False),
+        ("nullfloat_double", U(D), B("nullfloat"), "", False), ("nullfloat_float", U(F), B("nullfloat"), "", False), ("nullfloat_nullsecond", NS(D), B("nullfloat"), "", False),
+        ("nullbool", U(Sd("boolean")), B("nullbool"), "", False), ("nullbool_nullsecond", NS(Sd("boolean")), B("nullbool"), "", False),
+        ("nullstring", U(Sd("string")), B("nullstring"), "", False), ("nullstring_nullsecond", NS(Sd("string")), B("nullstring"), "", False),
+        ("ptr_nullint_nullsecond", NS(L), P(B("nullint")), "", False),
+        ("array_nullint_nullsecond", Sd("array", items=NS(L)), S(B("nullint")), "", False),
+    ]
+
+
 def main():
     ga = Gen("avro")
     ta, cata = catalogue_avro(ga)
@@ -851,6 +1041,12 @@ def main():
     # wide (full 64-bit) values into narrower targets: the fit clause
     for tn in ("verifL_Int16", "verifL_Int32"):
         ga.harness_read(cata["verifL_Int64"], cata[tn], "fit", wide=True)
+    emit_c05(ga)
+    emit_c06(ga, [cata[n] for n in ("verifL_Int64", "verifL_Int16", "verifL_String", "verifL_Bytes", "verifL_Bool", "verifL_Float32", "verifL_Float64",
+                                    "verifO_Int64", "verifO_String", "verifP_Int64", "verifP_String", "verifS_Int64", "verifS_String", "verifM_Int64", "verifM_String",
+                                    "verifN_Struct", "verifN_SliceStruct", "verifN_MapStruct", "verifD_SlicePtr", "verifD_MapPtr", "verifD_SliceSlice", "verifD_MapSlice",
+                                    "verifD_SliceBytes", "verifD_PtrSlice", "verifD_PtrMap", "verifD_PtrPtr", "verifTags1")])
+    emit_c13(ga, c13_cases_avro())
     src = ga.header(['"unsafe"']) + COMMON_HELPERS + "\n".join(ga.out)
     open(os.path.join(OUT, "avro", "zz_verif_gen_cat.go"), "w").write(src)
 
@@ -862,6 +1058,8 @@ def main():
         gn.harness_read(wt, tt, group)
         if group == "nullsame":
             gn.harness_read(wt, tt, group, swap=True)
+    emit_c06(gn, [catn[n] for n in ("verifL_NullInt", "verifL_NullBool", "verifL_NullFloat", "verifL_NullString", "verifS_NullInt", "verifM_NullString", "verifP_NullInt")])
+    emit_c13(gn, c13_cases_null())
     src = gn.header(['"unsafe"', '', '"github.com/philpearl/avro"', '"github.com/unravelin/null/v5"']) + COMMON_HELPERS + "\n".join(gn.out)
     src = src.replace("func verifHarness_", "func init() { RegisterCodecs() }\n\nfunc verifHarness_", 1)
     open(os.path.join(OUT, "null", "zz_verif_gen_cat.go"), "w").write(src)
